@@ -76,6 +76,21 @@ def run(chk, replay=None):
                 texts.append(("corpus/%d" % i, "corpus", line.strip(), None))
     for g in corelib.literal_programs(chk):
         texts.append((g.label, "literal", g.text, True))
+    # builtin aliases as the book documents them: a constant of the documented type is accepted at the alias, and the alias and
+    # its documented type are interchangeable
+    doc = os.path.join(REPO, "book", "src", "type_alias.md")
+    if os.path.exists(doc):
+        rows = [(n, d) for n, d in re.findall(r"^\|\s*`([A-Za-z0-9]+)`\s*\|\s*`([^`]+)`\s*\|", open(doc).read(), re.M) if n != "ExplicitAmount"]
+        for (n, d), r in zip(rows, impl("value", ["(tparse %s)" % quote(d) for _, d in rows])):
+            if not r.startswith("(ok"):
+                continue
+            t = progen.sx_to_ty(parse_sx(r)[1])
+            if t[0] == "T" and t[1] and t[1][0][0] == "L":
+                v = gen.val_src(("t", (("li", t[1][0][1], t[1][0][2], ()),) + tuple(gen.gen_val(rng, x) for x in t[1][1:])))
+            else:
+                v = gen.val_src(gen.gen_val(rng, t))
+            texts.append(("alias/%s" % n, "builtin-alias", "fn main() { let x: %s = %s; let y: %s = x; let z: %s = y; }" % (n, v, d, n), True))
+            texts.append(("alias-fn/%s" % n, "builtin-alias", "fn id(a: %s) -> %s { a }\nfn main() { let x: %s = id(%s); }" % (n, d, n, v), True))
     for i, (tag, text) in enumerate(corelib.scope_type_family()):
         texts.append(("scope-type/%d" % i, "scope-type:" + tag, text, True if tag == "W" else None))
     ex = os.path.join(REPO, "examples")
